@@ -3,7 +3,7 @@
    explicit fuel (outcome OutOfFuel); totality is therefore a theorem, for EVERY configuration record
    c (a superset of what the public options can build), every oracle function, every byte string.
    Proofs in Proofs/Termination.v, Proofs/NoPanic.v, Proofs/Total.v. *)
-From Verif Require Import Lib.Base Model.Cfg Model.Url Model.Machine Model.Api Model.Obs Proofs.Termination Proofs.NoPanic Proofs.Total.
+From Verif Require Import Lib.Base Model.Cfg Model.Url Model.Machine Model.Api Model.Canon Model.Obs Proofs.Termination Proofs.NoPanic Proofs.Total Proofs.CanonTotal.
 
 (* a parse call yields a URL or an error: never a panic, never out of fuel (no hang), never (nil, nil) *)
 Theorem C02_parse_total : forall idna_raw c i,
@@ -52,3 +52,29 @@ Theorem C02_histories_total : forall idna_raw c base input ops u,
   Forall (fun r : list str * list str * list str => fst (fst r) <> panic_marker) (hrun idna_raw c (Some u, None) ops).
 Proof. exact parse_then_history_total. Qed.
 Print Assumptions C02_histories_total.
+
+(* canonicalization: for EVERY profile record (every combination of canonicalizer and parser options, the predefined
+   profiles included), every oracle and every input, Parse and ParseRef of a profile return a URL or an error - never
+   a panic or an exhausted fuel in the parser, the setters, the repeated decoding or the parameter list - and on the
+   URL every getter works (Proofs/CanonTotal.v) *)
+Theorem C02_canonicalize_total : forall idna_raw p u, wf u -> exists u', Canonicalize idna_raw p u = Some u' /\ wf u'.
+Proof. exact Canonicalize_total. Qed.
+Print Assumptions C02_canonicalize_total.
+
+Theorem C02_profile_parse_total : forall idna_raw p x, ProfileParse idna_raw p x <> CPanic.
+Proof. exact ProfileParse_total. Qed.
+Print Assumptions C02_profile_parse_total.
+
+Theorem C02_profile_parse_ref_total : forall idna_raw p x ref, ProfileParseRef idna_raw p x ref <> CPanic.
+Proof. exact ProfileParseRef_total. Qed.
+Print Assumptions C02_profile_parse_ref_total.
+
+Theorem C02_profile_result_usable : forall idna_raw p x u' b,
+  ProfileParse idna_raw p x = CUrl u' -> Href u' b <> None /\ Pathname u' <> None.
+Proof. exact ProfileParse_getters. Qed.
+Print Assumptions C02_profile_result_usable.
+
+Theorem C02_profile_ref_result_usable : forall idna_raw p x ref u' b,
+  ProfileParseRef idna_raw p x ref = CUrl u' -> Href u' b <> None /\ Pathname u' <> None.
+Proof. exact ProfileParseRef_getters. Qed.
+Print Assumptions C02_profile_ref_result_usable.
